@@ -434,4 +434,132 @@ def _root_is_self(t):
     return isinstance(t, ast.Name) and t.id == "self"
 
 
-RULES = [rule_sig, rule_fs, rule_mode, rule_atomic, rule_srv, rule_state]
+CURSOR_MUTATORS = {"seek", "write", "writelines", "truncate", "read", "readline", "readlines", "readinto", "read1"}
+TREE_MUTATORS = {"append", "pop", "remove", "insert", "clear", "extend", "sort", "reverse", "update", "setdefault", "popitem", "add", "discard"}
+
+
+def rule_pure(ctx):
+    p = ctx.p
+    ctx.rule("C18.PURE", "the query operations of the in-memory backend (exists, is_dir, is_file, stat, list, get_node) change neither the tree nor the content or cursor of a file: "
+                         "file objects are shared by every opener, a query by one session must not move another session's transfer (a filesystem query has no such effect)")
+    M = p.methods("MemoryPathIO")
+    node_cls = p.classes.get("Node")
+    node_members = {}
+    if node_cls is not None:
+        for n in node_cls[0].body:
+            if isinstance(n, FuncT) and n.name != "__init__":
+                node_members[n.name] = n
+    queries = [q for q in ("exists", "is_dir", "is_file", "stat", "list", "get_node", "_absolute") if q in M]
+    if len(queries) < 5:
+        raise AnalysisError(f"C18.PURE: query operations found: {queries} (floor 5)")
+
+    def effects(fn, seen):
+        out = []
+        locals_fresh = set()
+        for c_ in ast.walk(fn):   # the instance of a class defined inside the query (the lister object) is the query's own fresh state
+            if isinstance(c_, ast.ClassDef):
+                for m_ in c_.body:
+                    if isinstance(m_, FuncT) and m_.args.args:
+                        locals_fresh.add(m_.args.args[0].arg)
+        for n in ast.walk(fn):
+            if isinstance(n, ast.Assign) and len(n.targets) == 1 and isinstance(n.targets[0], ast.Name) and isinstance(n.value, (ast.List, ast.Dict, ast.Set, ast.ListComp, ast.Call)) \
+                    and not (isinstance(n.value, ast.Call) and (is_self_call(n.value) or isinstance(n.value.func, ast.Attribute))):
+                locals_fresh.add(n.targets[0].id)
+        for n in ast.walk(fn):
+            if isinstance(n, (ast.Assign, ast.AugAssign, ast.Delete)):
+                for t in assign_targets(n):
+                    if isinstance(t, (ast.Attribute, ast.Subscript)):
+                        root = t
+                        while isinstance(root, (ast.Attribute, ast.Subscript)):
+                            root = root.value
+                        if not (isinstance(root, ast.Name) and root.id in locals_fresh and root.id != "self"):
+                            out.append((n, f"stores `{src(t)}`"))
+            if isinstance(n, ast.Call) and isinstance(n.func, ast.Attribute):
+                a = n.func.attr
+                recv = n.func.value
+                root = recv
+                while isinstance(root, (ast.Attribute, ast.Subscript)):
+                    root = root.value
+                fresh = isinstance(root, ast.Name) and root.id in locals_fresh
+                if a in CURSOR_MUTATORS and not fresh and "content" in src(recv):
+                    out.append((n, f"`{src(n)[:40]}` moves/changes the shared file object"))
+                elif a in TREE_MUTATORS and not fresh and ("content" in src(recv) or "fs" in src(recv)):
+                    out.append((n, f"`{src(n)[:40]}` changes the node tree"))
+                if is_self_call(n) and a in M and a not in seen and a in queries:
+                    out += effects(M[a], seen | {a})
+            if isinstance(n, ast.Attribute) and isinstance(n.ctx, ast.Load) and n.attr in node_members and n.attr not in seen \
+                    and any(last_attr(d) in ("property", "cached_property") for d in node_members[n.attr].decorator_list):
+                out += [(n, f"property Node.{n.attr}: " + why) for _, why in effects(node_members[n.attr], seen | {n.attr})]
+            if isinstance(n, ast.Call) and isinstance(n.func, ast.Attribute) and n.func.attr in node_members and n.func.attr not in seen and not is_self_call(n):
+                out += [(n, f"Node.{n.func.attr}(): " + why) for _, why in effects(node_members[n.func.attr], seen | {n.func.attr})]
+        return out
+    for q in queries:
+        eff = effects(M[q], {q})
+        ctx.ob("C18.PURE", eff[0][0] if eff else M[q], f"MemoryPathIO.{q} has no effect on the tree or on file objects", not eff,
+               f"MemoryPathIO.{q} is a query but {eff[0][1] if eff else ''}: a STAT/LIST/MLSD by any session during a transfer of that file moves the transfer's position "
+               "(RETR ends early, REST+STOR writes at the wrong place); the filesystem backends have no such effect", construct=f"pure:{q}")
+
+
+def rule_tree(ctx):
+    p = ctx.p
+    ctx.rule("C18.TREE", "the tree walk of the in-memory backend descends only into directories: the content of a file node (a BytesIO) is never iterated as if it were a list of children "
+                         "(a path through a regular file is 'not found' on every backend, not an AttributeError answered 451)")
+    M = p.methods("MemoryPathIO")
+    gn = M.get("get_node")
+    if gn is None:
+        raise AnalysisError("anchor=MemoryPathIO.get_node not found")
+    cursors = {t.id for n in walk_no_nested(gn) if isinstance(n, ast.Assign) for t in n.targets if isinstance(t, ast.Name)
+               and ((isinstance(n.value, ast.Attribute) and n.value.attr in ("content", "fs")))}
+    if not cursors:
+        raise AnalysisError("anchor=tree cursor (a local assigned from <node>.content / self.fs) not found in get_node")
+
+    def iterates_param(h, idx):
+        params = [a.arg for a in h.args.args]
+        if any(last_attr(d) == "staticmethod" for d in h.decorator_list) is False and params and params[0] in ("self", "cls"):
+            params = params[1:]
+        if idx >= len(params):
+            return False
+        name = params[idx]
+        return any(isinstance(l, (ast.For, ast.comprehension)) and isinstance(l.iter, ast.Name) and l.iter.id == name for l in ast.walk(h)) or \
+            any(isinstance(c, ast.Call) and isinstance(c.func, ast.Name) and c.func.id in ("next", "iter", "filter", "map", "enumerate", "any", "all", "sorted", "list")
+                and any(isinstance(a, ast.Name) and a.id == name for x in [c] for a in ast.walk(x)) for c in ast.walk(h))
+    sites = []
+    for n in walk_no_nested(gn):
+        if isinstance(n, ast.For) and isinstance(n.iter, ast.Name) and n.iter.id in cursors:
+            sites.append((n, n.iter.id))
+        if isinstance(n, ast.Call):
+            h = None
+            if is_self_call(n) and n.func.attr in M:
+                h = M[n.func.attr]
+            elif isinstance(n.func, ast.Name):
+                h = next((x for x in p.nested_functions(gn) if x.name == n.func.id), None)
+            for i, a in enumerate(n.args):
+                if isinstance(a, ast.Name) and a.id in cursors:
+                    if h is not None and iterates_param(h, i):
+                        sites.append((n, a.id))
+                    elif h is None and isinstance(n.func, ast.Name) and n.func.id in ("next", "iter", "filter", "map", "enumerate", "any", "all"):
+                        sites.append((n, a.id))
+        if isinstance(n, ast.comprehension) and isinstance(n.iter, ast.Name) and n.iter.id in cursors:
+            sites.append((n, n.iter.id))
+    if not sites:
+        raise Inconclusive("C18.TREE: the child search of get_node was not recognised")
+    for node, cur in sites:
+        anchor = node if not isinstance(node, ast.comprehension) else p.parent.get(node)
+        guards = all_guards(p, anchor, gn)
+        ok = any(pol and isinstance(t, ast.Call) and isinstance(t.func, ast.Name) and t.func.id == "isinstance" and t.args and src(t.args[0]) == cur and "list" in src(t) for t, pol in guards) or \
+            any(pol and isinstance(t, ast.Compare) and src(t.left).endswith(".type") and isinstance(t.comparators[0], ast.Constant) and t.comparators[0].value == "dir"
+                and isinstance(t.ops[0], ast.Eq) for t, pol in guards)
+        # the very first use, on the root list, needs no test: accept a cursor whose only definition before the loop is self.fs AND that is re-tested before each later use
+        ctx.ob("C18.TREE", anchor, f"get_node searches `{cur}` for a child only after checking that it is a list of children", ok,
+               f"get_node iterates `{cur}` without checking that it is a directory's child list: below a regular file it is the file's BytesIO, whose iteration yields bytes lines - "
+               "`.name` on them raises AttributeError and the command is answered 451 (the filesystem backends answer 550 / not found)", construct="tree:unchecked descent")
+
+
+def rule_append_seek(ctx):
+    from .c01 import rule_seek
+    ctx.rule("C18.APPEND", "the server never positions a file it opened in append mode: io files ignore seek() for writes in 'ab', the in-memory backend honours it - REST+APPE must switch "
+                           "to 'r+b' like REST+STOR (shared with C01.SEEK)")
+    ctx.borrow(rule_seek, {"C01.SEEK": "C18.APPEND"})
+
+
+RULES = [rule_sig, rule_fs, rule_mode, rule_atomic, rule_srv, rule_state, rule_pure, rule_tree, rule_append_seek]
